@@ -59,23 +59,26 @@ var benignSnippets = map[string]string{
 
 // fault class and syntactic position -> statement(s) that fail at run time (all of them compile)
 var faultSnippets = map[string]string{
-	"arith-asg":            `t = 1 + "s"`,
-	"arith-if":             `if 1 + "s" > 0 { t = 1 }`,
-	"arith-elseif":         `if false { t = 0 } else if 2 * "s" > 0 { t = 1 }`,
-	"arith-forinit":        `for k = 1 - "s"; k < 1; k += 1 { t = 1 }`,
-	"arith-forcond":        `for k = 0; k < 1 + "s"; k += 1 { t = 1 }`,
-	"arith-forstep":        `for k = 0; k < 2; k += "s" { t = 1 }`,
-	"arith-return":         `return 1 + "s"`,
-	"arith-arg":            `ev(1 + "s")`,
-	"arith-conc":           "conc {\n t = 1 + \"s\"\n u = 2\n }",
-	"div-zero":             `t = 7 / 0`,
-	"div-zero-if":          `if 7 / zero > 1 { t = 1 }`,
-	"cmp-asg":              `t = 1 < "s"`,
-	"cmp-if":               `if "s" > 1 { t = 1 }`,
-	"cmp-return":           `return true == 1`,
-	"logic-asg":            `t = 1 && true`,
-	"logic-if":             `if true || "s" { t = 1 }`,
-	"cond-notbool":         `if 1 { t = 1 }`,
+	"arith-asg":     `t = 1 + "s"`,
+	"arith-if":      `if 1 + "s" > 0 { t = 1 }`,
+	"arith-elseif":  `if false { t = 0 } else if 2 * "s" > 0 { t = 1 }`,
+	"arith-forinit": `for k = 1 - "s"; k < 1; k += 1 { t = 1 }`,
+	"arith-forcond": `for k = 0; k < 1 + "s"; k += 1 { t = 1 }`,
+	"arith-forstep": `for k = 0; k < 2; k += "s" { t = 1 }`,
+	"arith-return":  `return 1 + "s"`,
+	"arith-arg":     `ev(1 + "s")`,
+	"arith-conc":    "conc {\n t = 1 + \"s\"\n u = 2\n }",
+	"div-zero":      `t = 7 / 0`,
+	"div-zero-if":   `if 7 / zero > 1 { t = 1 }`,
+	"cmp-asg":       `t = 1 < "s"`,
+	"cmp-if":        `if "s" > 1 { t = 1 }`,
+	"cmp-return":    `return true == 1`,
+	"logic-asg":     `t = 1 && true`,
+	"logic-if":      `if true || "s" { t = 1 }`,
+	"cond-notbool":  `if 1 { t = 1 }`,
+	// injected data that is a pointer / interface cycle (var p interface{}; p = &p): no struct behind it, a contained fault
+	"cyclic-read":          `t = cyc.Name`,
+	"cyclic-write":         `cyc.Name = 1`,
 	"cond-notbool-elseif":  `if false { t = 0 } else if 1 { t = 1 }`,
 	"cond-notbool-elseif2": `if false { t = 0 } else if zero > 1 { t = 2 } else if "s" { t = 1 } else { t = 3 }`,
 	// a pair: one rule binds a local and then dies of a rule-level fault; another rule reads that name, which it never
@@ -201,6 +204,9 @@ func faultData() map[string]interface{} {
 	for i := 1; i <= 40; i++ {
 		m[fmt.Sprintf("cnt_r%d", i)] = &Cnt{}
 	}
+	var cyc interface{}
+	cyc = &cyc
+	m["cyc"] = cyc
 	return m
 }
 
